@@ -45,9 +45,9 @@ var c04ModSeqs = func() [][]byte {
 	return out
 }()
 
-const c04Contexts = 7
+const c04Contexts = 8
 
-var c04CtxNames = [...]string{"top-level", "struct-field", "slice-element", "behind-pointer", "struct-in-slice", "slice-in-struct", "struct-field-between-catching-siblings"}
+var c04CtxNames = [...]string{"top-level", "struct-field", "slice-element", "behind-pointer", "struct-in-slice", "slice-in-struct", "struct-field-between-catching-siblings", "field-of-a-go-struct-used-as-input"}
 
 func (c04) Info(t core.Tier) core.Info {
 	return core.Info{
@@ -197,6 +197,29 @@ func c04Wrap(cell *spec.Node, ctx int) (root *spec.Node, wrapData func(any) any,
 		root = &spec.Node{Kind: spec.Struct, ExtraFields: extra, Fields: []spec.Field{{Key: "l", GoName: "L", Node: sl}, {Key: "other", GoName: "Other", Node: other()}}}
 		wrapData = func(v any) any { return map[string]any{"l": []any{unmiss(v)}, "other": "o"} }
 		wrapVal = func(v any) any { return map[string]any{"L": []any{v}, "Other": "o", "XUntouchedS": "sentinel-untouched"} }
+	}
+	if ctx == 7 {
+		// the record is a Go struct value whose field F has exactly the dynamic type of the input (so 0, false, zero time are typed zero values)
+		root = &spec.Node{Kind: spec.Struct, ExtraFields: extra, Fields: []spec.Field{{Key: "F", GoName: "F", Node: cell}, {Key: "Other", GoName: "Other", Node: other()}}}
+		wrapData = func(v any) any {
+			fs := []reflect.StructField{{Name: "Other", Type: reflect.TypeOf("")}}
+			_, miss := v.(missingKey)
+			if !miss && v != nil {
+				fs = append(fs, reflect.StructField{Name: "F", Type: reflect.TypeOf(v)})
+			} else if !miss {
+				fs = append(fs, reflect.StructField{Name: "F", Type: reflect.TypeOf((*any)(nil)).Elem()})
+			}
+			rv := reflect.New(reflect.StructOf(fs)).Elem()
+			rv.FieldByName("Other").SetString("o")
+			if !miss && v != nil {
+				rv.FieldByName("F").Set(reflect.ValueOf(v))
+			}
+			if len(fs)%2 == 0 {
+				return rv.Addr().Interface() // a pointer to the struct is an equally valid record
+			}
+			return rv.Interface()
+		}
+		wrapVal = func(v any) any { return map[string]any{"F": v, "Other": "o", "XUntouchedS": "sentinel-untouched"} }
 	}
 	if ctx == 6 {
 		// the cell sits between two catching siblings, one of which fails and is caught on every input
